@@ -77,3 +77,40 @@ T("C01", "twin-inversions-cancel", (UNI, "perm_matrix.transpose() @ inner_gate_m
   (UNI, "perm_matrix[:, i] = bitstring_to_dense_vector(output_state)", "perm_matrix[i, :] = bitstring_to_dense_vector(output_state)"))
 T("C01", "twin-max-as-conditional", (CIR, "n_qubits=max(circuit.n_qubits, other.n_qubits),", "n_qubits=circuit.n_qubits if circuit.n_qubits >= other.n_qubits else other.n_qubits,"))
 T("C01", "twin-concat-with-plus", (CIR, "operations=[*circuit.operations, *other.operations],", "operations=list(circuit.operations) + list(other.operations),"))
+
+# ----------------------------------------------------------------------------- C20
+OPS = "operators/_pauli_operators.py"
+MEAS = "measurements/measurements.py"
+DIST = "distributions/_measurement_outcome_distribution.py"
+WF = "wavefunction.py"
+OIO = "operators/_io.py"
+
+B("C20", "simplify-edits-term-in-place", (OPS, "                    terms.append(term_list[0].copy(new_coefficient=coeff))", "                    term_list[0].coefficient = coeff\n                    terms.append(term_list[0])"), rule="C20-D1")
+B("C20", "get-counts-sorts-alias", (MEAS, "        bitstrings = convert_tuples_to_bitstrings(self.bitstrings)\n        return dict(Counter(bitstrings))", "        raw = self.bitstrings\n        raw.sort()\n        bitstrings = convert_tuples_to_bitstrings(raw)\n        return dict(Counter(bitstrings))"), rule="C20-D1")
+B("C20", "append-mutates-through-callee", (CIR, """    n_qubits_by_operation = max(other.qubit_indices) + 1
+    return type(circuit)(
+        operations=[*circuit.operations, other],
+        n_qubits=max(circuit.n_qubits, n_qubits_by_operation),
+    )""", """    n_qubits_by_operation = max(other.qubit_indices) + 1
+    circuit.operations.append(other)
+    return type(circuit)(
+        operations=[*circuit.operations],
+        n_qubits=max(circuit.n_qubits, n_qubits_by_operation),
+    )"""), rule="C20-D1")
+B("C20", "subdistribution-pops-source", (DIST, "new_counts[new_key] = self.distribution_dict[key] + new_counts.get(", "new_counts[new_key] = self.distribution_dict.pop(key) + new_counts.get("), rule="C20-D1")
+B("C20", "probabilities-squared-in-place", (WF, "        return np.abs(self.amplitudes) ** 2", "        amps = self.amplitudes\n        amps **= 2\n        return np.abs(amps)"), rule="C20-D1")
+B("C20", "op-to-dict-sorts-terms", (OIO, "    for term in op.terms:\n        term_dict: Dict[str, Any] = {", "    op.terms.sort(key=str)\n    for term in op.terms:\n        term_dict: Dict[str, Any] = {"), rule="C20-D1")
+B("C20", "expectation-values-reverses-operator", (MEAS, "        bitstring_frequencies = self.get_counts()\n        num_measurements = len(self.bitstrings)\n\n        # Perform weighted average", "        bitstring_frequencies = self.get_counts()\n        num_measurements = len(self.bitstrings)\n        ising_operator.terms.reverse()\n\n        # Perform weighted average"), rule="C20-D1")
+B("C20", "ctor-normalises-callers-dict", (DIST, """    res_dict: Dict[Union[str, Tuple[int, ...]], float] = {}
+    for key, value in input_dict.items():""", """    res_dict: Dict[Union[str, Tuple[int, ...]], float] = {}
+    if all(isinstance(key, tuple) for key in input_dict):
+        return input_dict
+    for key, value in input_dict.items():"""), rule="C20-D1")
+B("C20", "unfreeze-dagger", (GAT, "@dataclass(frozen=True)\nclass Dagger(Gate):", "@dataclass\nclass Dagger(Gate):"), rule="C20-D2")
+B("C20", "setattr-bypass-in-bind", (GAT, "    def bind(self, symbols_map) -> \"MatrixFactoryGate\":\n        return self.replace_params(", "    def bind(self, symbols_map) -> \"MatrixFactoryGate\":\n        object.__setattr__(self, \"params\", tuple(self.params))\n        return self.replace_params("), rule="C20-D2")
+B("C20", "circuit-keeps-callers-list", (CIR, "self._operations = list(operations) if operations is not None else []", "self._operations = operations if operations is not None else []"), rule="C20-D3")
+B("C20", "memo-unguarded", (OPS, "        if not hasattr(self, \"_is_ising\"):\n            self._is_ising = all([term.is_ising for term in self.terms])", "        self._is_ising = all([term.is_ising for term in self.terms])"), rule="C20-D1")
+B("C20", "bind-returns-self-when-no-symbols", (CIR, "        return type(self)(\n            operations=[op.bind(symbols_map) for op in self.operations],", "        if not symbols_map:\n            return self\n        return type(self)(\n            operations=[op.bind(symbols_map) for op in self.operations],"), rule="C20-D3")
+T("C20", "twin-sort-a-copy", (MEAS, "        bitstrings = convert_tuples_to_bitstrings(self.bitstrings)\n        return dict(Counter(bitstrings))", "        raw = list(self.bitstrings)\n        raw.sort()\n        bitstrings = convert_tuples_to_bitstrings(raw)\n        return dict(Counter(bitstrings))"))
+T("C20", "twin-simplify-copy-then-edit", (OPS, "                    terms.append(term_list[0].copy(new_coefficient=coeff))", "                    merged = term_list[0].copy()\n                    merged.coefficient = coeff\n                    terms.append(merged)"))
+T("C20", "twin-new-memo-free-property", (OPS, "        return set(self._ops.keys())", "        qubits = set(self._ops.keys())\n        qubits.discard(-1)\n        return qubits"))
